@@ -455,7 +455,10 @@ impl<T: Clone> RawTable<T> {
     /// Variant of `clone_from` to use when a hasher is available.
     pub(crate) fn clone_from_with_hasher(&mut self, source: &Self, hasher: impl Fn(&T) -> u64) {
         let _ = self.leftovers.take();
-        self.table.clone_from_with_hasher(&source.table, &hasher);
+        // NOTE: not `clone_from_with_hasher`: when `self.table` is empty but still has tombstones,
+        // hashbrown 0.14's version of it re-inserts into the uncleared table and then lets its
+        // `growth_left` underflow. `clone_from` is what hashbrown's own `HashMap` uses.
+        self.table.clone_from(&source.table);
         // Since we're doing the work of cloning anyway, we might as well carry the leftovers.
         and_carry_with_hasher(&mut self.table, &source.leftovers, hasher);
     }
